@@ -4,6 +4,7 @@ Decided from the folded regular expressions (regex AST), the %-templates of
 to_string, the decoder/encoder pairs around them, and the CFG of
 uri.from_string (DESIGN.md section 5, C15)."""
 from sa.h import *
+from sa.index import Module
 
 EXPLANATION = (
     "Decided (structural): for the 9 file-cap classes of allmydata.uri (1) STRING_RE is applied to the whole "
@@ -30,16 +31,23 @@ EXPLANATION = (
     "that class's parser applied to the unmodified input, prefix+BASE_STRING.. in that parser applied to the input minus "
     "exactly the prefix or in UnknownURI(input), and white space in front of the BASE_STRING (or between prefix and "
     "BASE_STRING) ends in UnknownURI(input): nothing but one alleged prefix is removed and neither end is trimmed "
-    "(strip/lstrip/rstrip of the input or of the working copy are reported). "
+    "(strip/lstrip/rstrip/removeprefix/removesuffix of the input or of the working copy are decided on the known leading "
+    "bytes and reported; a for loop over a short constant table, e.g. of the alleged prefixes, is unrolled); (13) every "
+    "named one-character class of base32 characters that a STRING_RE is built from (util.base32's BASE32CHAR*, evaluated "
+    "through the helper that computes them) is, as a set, the alphabet characters whose N low bits are zero for one N in "
+    "0..4 - with (4), which demands the right N at each group's last position, this pins the classes to the canonical ones "
+    "and names the base32 helper / constant when a class is some other set. "
     "Undecided: base32 a2b/b2a arithmetic itself (value level), int() of huge digit strings, the free-form MDMF "
     "extension fields (explicitly allowed to be dropped); which kinds from_string refuses behind a 'ro.'/'imm.' prefix or "
     "with deep_immutable=True (flag clearing, the error/kind reported for a constraint failure - property C16), str inputs "
     "(the encode step) and non-bytes arguments; that _SHA256d_Hasher really truncates to truncate_to (value level); "
     "paths of the abstract executions whose tests are not decided by the scenario are followed on both sides and "
     "only certain outcomes are reported; rules 11/12 give ANALYSIS-ERROR when a scenario's outcome is not decided by "
-    "the known leading bytes (prefix handling moved into helpers, loops over a prefix table, regex-based prefix tests), and "
-    "they examine the listed scenarios only (other junk than white space, other transformations than slices and the strip "
-    "family are not modelled).")
+    "the known leading bytes (prefix handling moved into helpers, while/nested loops over a prefix table, regex-based prefix "
+    "tests, split/partition/replace), and they examine the listed scenarios only (other junk than white space, other "
+    "transformations than slices, the strip family and removeprefix/removesuffix are not modelled); the table "
+    "util.base32.s8 behind a2b's could_be_base32_encoded precondition (it is built from the same helper as the classes of "
+    "rule 13, but its own construction and indexing are value-level code that is not evaluated).")
 TECHNIQUE = ("static analysis: regex-AST language checks on constant-folded patterns, template/decoder pairing, CFG dominance "
              "in from_string, bounded abstract interpretation of from_string / cap constructors / to_string over the CFG")
 
@@ -320,10 +328,18 @@ def _application(fn):
     taken from the normal form of the match object used by the returns."""
     out = []
     fnorm = FlowNorm(fn)
-    for n in _returns(fn):
-        if n.ast.value is None:
-            continue
-        s, e = _nf_ast(fnorm, n, n.ast.value)
+    cfg = fn.cfg()
+    reach = cfg.reachable_nodes()
+    # the returns, and the tests (the pattern may be applied only to be tested: the fields then come from slices)
+    places = [(n, n.ast.value) for n in _returns(fn) if n.ast.value is not None]
+    places += [(n, n.ast) for n in cfg.find(lambda n: n.kind == "test") if n.id in reach and isinstance(n.ast, ast.expr)]
+    for (n, expr) in places:
+        try:
+            s, e = _nf_ast(fnorm, n, expr)
+        except AnalysisError:
+            if n.kind == "test":
+                continue
+            raise
         for x in ast.walk(e):
             if isinstance(x, ast.Call) and isinstance(x.func, ast.Attribute) and x.func.attr in ("search", "match", "fullmatch"):
                 p = attr_path(x.func.value)
@@ -360,6 +376,7 @@ def _strip_forms(x, prefix_exprs, re_calls):
         out.add(norm_src("%s[%s.end():]" % (x, c)))
     for p in prefix_exprs:
         out.add(norm_src("%s[len(%s):]" % (x, p)))
+        out.add(norm_src("%s.removeprefix(%s)" % (x, p)))
     return out
 
 
@@ -442,6 +459,46 @@ def _h_strip(v, chars, left, right):
             return UNK
         pure = False                               # the tail may lose bytes
     return ("h", head, cut, pure)
+
+
+def _h_removeprefix(v, p):
+    """v.removeprefix(p) for an ("h", ..) value and a bytes constant p: decided when the known leading bytes
+    start with p (p goes, the value is input[cut + len(p):]) or cannot (nothing goes)."""
+    _h, head, cut, pure = v
+    if not p:
+        return v
+    if head.startswith(p):
+        return ("h", head[len(p):], None if cut is None else cut + len(p), pure)
+    if p.startswith(head):
+        return UNK                                 # depends on the bytes after the known ones
+    return v
+
+
+def _h_removesuffix(v, sfx):
+    """v.removesuffix(sfx): the tail is not known, so the end may or may not lose len(sfx) bytes; the leading bytes
+    are kept unless the value could be so short that the suffix reaches into them."""
+    _h, head, cut, pure = v
+    if not sfx:
+        return v
+    if any(head.endswith(sfx[:k]) for k in range(1, len(sfx) + 1)):
+        return UNK
+    return ("h", head, cut, False)
+
+
+def _loops_in_loops(fn):
+    """The for statements of fn that lie inside another loop (their head can be entered more than once)."""
+    out = set()
+
+    def walk(node, inside):
+        for ch in ast.iter_child_nodes(node):
+            if isinstance(ch, (ast.FunctionDef, ast.AsyncFunctionDef, ast.Lambda, ast.ClassDef)):
+                continue
+            loop = isinstance(ch, (ast.For, ast.AsyncFor, ast.While))
+            if inside and isinstance(ch, (ast.For, ast.AsyncFor)):
+                out.add(id(ch))
+            walk(ch, inside or loop)
+    walk(fn.node, False)
+    return out
 
 
 def _hash_len(idx, F, module, call, depth=3):
@@ -591,6 +648,26 @@ class _AI:
                 if v[0] == "h" and c[0] == "c" and (c[1] is None or isinstance(c[1], bytes)):
                     return _h_strip(v, WS if c[1] is None else c[1], e.func.attr != "rstrip", e.func.attr != "lstrip")
                 return UNK
+            if isinstance(e.func, ast.Attribute) and e.func.attr in ("removeprefix", "removesuffix") and len(e.args) == 1:
+                v, p = self.ev(e.func.value, env), self.ev(e.args[0], env)
+                front = e.func.attr == "removeprefix"
+                if p[0] != "c" or not isinstance(p[1], bytes):
+                    return UNK
+                if v == CUT:
+                    return CUT
+                if v == IN:
+                    if not p[1]:
+                        return IN
+                    if not front or base is None:
+                        return UNK                  # whether the end loses bytes depends on the unknown tail
+                    if base.startswith(p[1]):
+                        return CUT
+                    return UNK if p[1].startswith(base) else IN
+                if v[0] == "h":
+                    return _h_removeprefix(v, p[1]) if front else _h_removesuffix(v, p[1])
+                if v[0] == "c" and isinstance(v[1], bytes):
+                    return ("c", v[1].removeprefix(p[1]) if front else v[1].removesuffix(p[1]))
+                return UNK
             if isinstance(e.func, ast.Name) and e.func.id == "len" and len(e.args) == 1 and "len" not in env:
                 v = self.ev(e.args[0], env)
                 if v[0] == "c" and isinstance(v[1], (bytes, str, tuple)):
@@ -632,6 +709,7 @@ class _AI:
         fn, cfg = self.fn, self.fn.cfg()
         env0 = self.defaults()
         env0.update(given)
+        nested_loops = _loops_in_loops(fn)
 
         def freeze(env, exact):
             return (tuple(sorted(env.items())), exact)
@@ -650,6 +728,28 @@ class _AI:
                 return freeze(env, False)
             if n.kind == "stmt" and isinstance(n.ast, (ast.Return, ast.Raise)):
                 return None
+            if n.kind == "iter" and lab in ("iter", "done") and isinstance(n.ast.target, ast.Name) \
+                    and id(n.ast) not in nested_loops:
+                # a loop over a short constant table (e.g. the alleged prefixes) is unrolled: the position is part
+                # of the state, the target takes the elements in turn
+                if isinstance(n.ast.iter, (ast.Tuple, ast.List)):
+                    els = [self.ev(x, env) for x in n.ast.iter.elts]
+                    it = ("c", tuple(x[1] for x in els)) if all(x[0] == "c" for x in els) else UNK
+                else:
+                    it = self.ev(n.ast.iter, env)
+                if it[0] == "c" and isinstance(it[1], (tuple, bytes)) and len(it[1]) <= 8:
+                    key = "!it%d" % n.id
+                    i = env.get(key, ("c", 0))[1]
+                    if lab == "iter":
+                        if i >= len(it[1]):
+                            return None
+                        env[n.ast.target.id] = _const(it[1][i])
+                        env[key] = ("c", i + 1)
+                    else:
+                        if i < len(it[1]):
+                            return None
+                        env.pop(key, None)
+                    return freeze(env, exact)
             if n.kind == "stmt" and isinstance(n.ast, ast.Assign):
                 v = self.ev(n.ast.value, env)
                 for t in n.ast.targets:
@@ -793,6 +893,62 @@ def _outcome_text(fn, o):
     return t
 
 
+def _feeding_constants(idx, module, cls, expr, out=None, depth=0):
+    """The named module-level constants an expression is built from, transitively through class attributes, module
+    assignments and imports: {(module name, name): (Module, [defining exprs], [package functions their exprs call])}."""
+    out = {} if out is None else out
+    if depth > 12:
+        return out
+
+    def const(mod, name):
+        key = (mod.name, name)
+        if key in out:
+            return
+        exprs = mod.assigns.get(name)
+        if exprs:
+            helpers = []
+            for d in exprs:
+                for x in ast.walk(d):
+                    if isinstance(x, ast.Call):
+                        t = idx.resolve_expr(mod, x.func) if isinstance(x.func, (ast.Name, ast.Attribute)) else None
+                        if isinstance(t, FuncInfo) and t not in helpers:
+                            helpers.append(t)
+            out[key] = (mod, exprs, helpers)
+            for d in exprs:
+                _feeding_constants(idx, mod, None, d, out, depth + 1)
+        elif name in mod.imports:
+            m2name, _, nm = mod.imports[name].rpartition(".")
+            m2 = idx.modules.get(m2name)
+            if m2 is not None:
+                const(m2, nm)
+
+    skip = set()
+    for x in ast.walk(expr):
+        if id(x) in skip:
+            continue
+        if isinstance(x, ast.Attribute):
+            tgt = idx.resolve_expr(module, x.value) if isinstance(x.value, (ast.Name, ast.Attribute)) else None
+            if isinstance(tgt, Module):
+                const(tgt, x.attr)
+                skip.update(id(y) for y in ast.walk(x.value))
+            elif isinstance(tgt, ClassInfo):
+                for c in tgt.mro():
+                    if x.attr in c.attrs:
+                        _feeding_constants(idx, c.module, c, c.attrs[x.attr][-1], out, depth + 1)
+                        break
+                skip.update(id(y) for y in ast.walk(x.value))
+        elif isinstance(x, ast.Name):
+            if cls is not None and cls.lookup_attr(x.id) is not None:
+                for c in cls.mro():
+                    if x.id in c.attrs:
+                        if c.attrs[x.id][-1] is not expr:
+                            _feeding_constants(idx, c.module, c, c.attrs[x.id][-1], out, depth + 1)
+                        break
+            else:
+                const(module, x.id)
+    return out
+
+
 # --------------------------------------------------------------------- run
 def run(ctx: Context):
     idx = ctx.idx
@@ -876,6 +1032,59 @@ def run(ctx: Context):
             r.require(full or "$" not in ks, ci.qual, _cls_loc(ci, "STRING_RE"),
                       "%s.STRING_RE ends with '$', which also matches before a trailing newline: cap+b'\\n' is accepted "
                       "as this kind (also through its directory wrapper) and re-serialises without the newline" % ci.name)
+
+    # -- 13. the final-character classes the cap patterns are built from (run before 4, which decides the positions,
+    #        so that a wrong class is first reported at the helper / constant that produces it) ----
+    with ctx.rule("C15.13", "R11", "every named one-character class of base32 characters that a cap class's STRING_RE is "
+                  "built from (util.base32's BASE32CHAR*, through whatever helper computes them) is, as a set, the "
+                  "alphabet characters whose N low bits are zero for one N in 0..4 - the only classes that can stand at "
+                  "the end of a canonical base32 group; any other set admits a final character with stray low bits "
+                  "(decoded with the bits dropped, re-encoded differently) or refuses one that b2a produces",
+                  expected=5) as r:
+        canon = {n: frozenset(ALPHABET[i] for i in range(32) if i % (1 << n) == 0) for n in range(5)}
+        consts = {}
+        for ci in files:
+            for key, val in _feeding_constants(idx, ci.module, ci, ci.attrs["STRING_RE"][-1]).items():
+                consts.setdefault(key, val)
+        r.count(len(consts))
+        for (mname, name), (mod, exprs, helpers) in sorted(consts.items()):
+            try:
+                v = F.name(name, mod, None)
+            except NotConstant as e:
+                raise AnalysisError("cannot fold %s.%s: %s" % (mname, name, e))
+            if not isinstance(v, bytes):
+                continue
+            try:
+                toks = _toks(regex_ast(v))
+            except Exception:
+                continue                           # a fragment that is not a pattern by itself, e.g. b'(%s{25}%s)' pieces
+            if len(toks) != 1 or toks[0][0] != "set" or (toks[0][2], toks[0][3]) != (1, 1):
+                continue
+            cs = toks[0][1]
+            if len(cs) < 2 or not cs <= ALPHA:
+                continue                           # not a class of base32 characters (digits of NUMBER, ...)
+            r.site("%s:%s" % (mname, name), None, "".join(sorted(cs, key=ALPHABET.index)))
+            if cs in canon.values():
+                continue
+            best = min(range(5), key=lambda n: (len(cs ^ canon[n]), n))
+            extra = "".join(sorted(cs - canon[best], key=ALPHABET.index))
+            missing = "".join(sorted(canon[best] - cs, key=ALPHABET.index))
+            what = []
+            if extra:
+                what.append("it admits %s, whose 5-bit values have some of the %d low bits set" % (
+                    "/".join(repr(c) for c in extra[:8]), best))
+            if missing:
+                what.append("it lacks %s" % "/".join(repr(c) for c in missing[:8]))
+            msg = ("%s.%s = %r%s is not the set of base32 characters whose N low bits are zero for any N (closest: N=%d; %s): "
+                   "as the final character of a base32 group in the cap patterns it accepts strings that a2b decodes with the "
+                   "stray bits dropped and to_string() re-encodes differently, or refuses canonical ones" % (
+                       mname, name, v, (" (computed by %s)" % ", ".join(short(h) for h in helpers)) if helpers else "",
+                       best, "; ".join(what)))
+            loc = "%s:%s" % (mod.relpath, getattr(exprs[-1], "lineno", 1))
+            if len(helpers) == 1:
+                r.violation(helpers[0], helpers[0].loc(), msg)
+            else:
+                r.violation("%s:%s" % (mname, name), loc, msg)
 
     # -- 4 / 5. groups <-> template <-> codecs ------------------------------
     numeric = []
@@ -1460,3 +1669,102 @@ def run(ctx: Context):
                     out.append((p + j + base, {}, "", allowed(p + j + base, 0, False)))
             return out
         scenario_rule(r, trimmed)
+
+    # -- 14. a2b's own validator accepts what the patterns accept ----------
+    with ctx.rule("C15.14", "R11", "the table that the validator asserted by base32.a2b indexes with (length mod 8, last "
+                  "byte) is true for the last character of every base32 group of every STRING_RE at that group's "
+                  "length(s): a string the pattern accepts - in particular what to_string() writes - is not refused by "
+                  "a2b's precondition (an AssertionError that from_string does not turn into UnknownURI)", expected=11) as r:
+        a2b = idx.func("util.base32:a2b")
+        aps = first_positional_params(a2b)
+        if not aps:
+            raise AnchorVanished("base32.a2b has no parameter")
+        acfg, anorm = a2b.cfg(), FlowNorm(a2b)
+        areach = acfg.reachable_nodes()
+        validators = []
+        for n in acfg.find(lambda n: n.kind == "test"):
+            c = n.ast
+            if n.id in areach and isinstance(c, ast.Call) and not c.keywords and len(c.args) == 1 \
+                    and anorm.norm(n, c.args[0]) == aps[0] \
+                    and any(isinstance(lab, tuple) and lab[0] == "F" and acfg.nodes[d].kind == "raise" for (d, lab) in acfg.succ[n.id]):
+                v = idx.resolve_expr(a2b.module, c.func) if isinstance(c.func, (ast.Name, ast.Attribute)) else None
+                if isinstance(v, FuncInfo) and v not in validators:
+                    validators.append(v)
+        r.site(a2b, None, "asserts %s" % [short(v) for v in validators])
+        tables = []          # (validator, table value, what computes it)
+        for V in validators:
+            vps = first_positional_params(V)
+            if not vps:
+                raise AnchorVanished("%s has no parameter" % V.qual)
+            P = vps[0]
+            vnorm = FlowNorm(V)
+            lens = {norm_src("len(%s) %% 8" % x) for x in (P, "bytes(%s)" % P)}
+            lasts = {norm_src("%s[-1]" % x) for x in (P, "bytes(%s)" % P)}
+            found = []
+            for n in _returns(V):
+                if n.ast.value is None:
+                    continue
+                e = vnorm.resolve(n, n.ast.value)
+                for c in (e.values if isinstance(e, ast.BoolOp) and isinstance(e.op, ast.And) else [e]):
+                    c = vnorm.resolve(n, c)
+                    row = vnorm.resolve(n, c.value) if isinstance(c, ast.Subscript) else None
+                    if isinstance(row, ast.Subscript) and not isinstance(c.slice, ast.Slice) and not isinstance(row.slice, ast.Slice) \
+                            and vnorm.norm(n, row.slice) in lens and vnorm.norm(n, c.slice) in lasts:
+                        found.append((n, vnorm.resolve(n, row.value)))
+            if not found:
+                raise AnchorVanished("%s, asserted by base32.a2b, does not index a table by (len(%s) %% 8, %s[-1]): the rule "
+                                     "cannot follow this validator" % (V.qual, P, P))
+            for (n, T) in found:
+                texpr, helper = T, None
+                if isinstance(T, ast.Name) and T.id in V.params:
+                    a = V.node.args
+                    pos = list(a.posonlyargs) + list(a.args)
+                    dflt = dict(zip([x.arg for x in pos[len(pos) - len(a.defaults):]], a.defaults))
+                    dflt.update({k.arg: d for k, d in zip(a.kwonlyargs, a.kw_defaults) if d is not None})
+                    if T.id not in dflt:
+                        raise AnalysisError("%s: the table %s is a parameter without default" % (V.qual, T.id))
+                    texpr = dflt[T.id]
+                try:
+                    tv = F.fold(texpr, V.module, None)
+                except NotConstant as ex:
+                    raise AnalysisError("cannot fold the table %s of %s: %s" % (src(V, T), V.qual, ex))
+                if isinstance(texpr, ast.Name):
+                    hs = _feeding_constants(idx, V.module, None, texpr).get((V.module.name, texpr.id), (None, [], []))[2]
+                    helper = hs[0] if len(hs) == 1 else None
+                r.site(V, n.ast, "table %s" % src(V, T))
+                tables.append((V, src(V, T), tv, helper))
+        for ci in files:
+            v, toks = analysed(ci, "STRING_RE")
+            shape = _shape(toks) or []
+            need = []        # (group index, length mod 8, final-character class)
+            for g in [p for p in shape if p[0] == "group"]:
+                kind = _classify(g[2])
+                if kind[0] == "b32":
+                    pos = _positions(g[2])
+                    need.append((g[1], len(pos) % 8, pos[-1]))
+                elif kind[0] == "b32any":
+                    for p in [_positions(g[2][0][3])] + [_positions(a) for a in g[2][1][1]]:
+                        if p:
+                            need.append((g[1], len(p) % 8, p[-1]))
+            r.site(ci.qual + ".STRING_RE", None, "%d (group, length mod 8, final class) obligations" % len(need))
+            r.count(len(need) * max(1, len(tables)))
+            for (V, tname, tv, helper) in tables:
+                bad = []
+                for (gi, l, cs) in need:
+                    for ch in sorted(cs or ()):
+                        try:
+                            ok = bool(tv[l][ord(ch)])
+                        except Exception:
+                            ok = False
+                        if not ok:
+                            bad.append((gi, l, ch))
+                if bad:
+                    gi, l, ch = bad[0]
+                    msg = ("%s.STRING_RE group %d accepts %r as the last of n = %d (mod 8) base32 characters, but %s[%d][%d], "
+                           "which base32.a2b asserts through %s, is false (%d such character/length pairs): a cap string of "
+                           "this kind - one that to_string() can write - fails a2b's precondition with an AssertionError "
+                           "instead of parsing" % (ci.name, gi, ch, l, tname, l, ord(ch), short(V), len(bad)))
+                    if helper is not None:
+                        r.violation(helper, helper.loc(), msg)
+                    else:
+                        r.violation(V, V.loc(), msg)
